@@ -681,6 +681,10 @@ def run(ctx, facts):
         _histo(ctx, facts, SMH2 + "sketch", "smh2")
     for fid in [SMH + "sketch", SS + "sketch", OD + "sketch", RD + "sketch"] + ([SMH2 + "sketch"] if has2 else []):
         skip_rule(ctx, facts, fid)
+    # SetSketch prunes draws against lower_k: a bound above some register makes the registers depend on the order of arrival
+    from . import C05 as _C05
+    ctx.rule("LOWER", _C05.RULES["LOWER"])
+    _C05.lower_rules(ctx, facts)
     # reuse after reinit is part of "any chunking of the stream over several calls" in practice: reset == new for the five sketchers
     from . import C13 as _C13
     _C13.require_verified_reset(ctx, facts, [x for x in (_C13.SMH, _C13.SMH2, _C13.SS, _C13.OD, _C13.RD)], "REINIT")
